@@ -5,7 +5,7 @@
     binding).  The root [[]] always exists and is a directory.  A path component is a number
     (the harness maps names to numbers); a symlink destination is a list of components that may
     contain [Up] ("..").  Definitions only; lemmas are in [FS/TreeProofs.v]. *)
-From Wharf Require Import Base.Prelude.
+From Wharf Require Import FS.Light.
 
 Definition name := N.
 Definition path := list name.
